@@ -142,8 +142,9 @@ func c08Parse(s []byte) (d c08Dec, hasExp bool, ok bool) {
 
 func c08Pow10(k int64) *big.Int { return new(big.Int).Exp(big.NewInt(10), big.NewInt(k), nil) }
 
-// c08Within: |b-a| <= 1/2 * 10^(e_a + digits(m_a) - p)
-func c08Within(a, b c08Dec, p int) bool {
+// c08Within: |b-a| <= 1/2 * 10^u with u = e_a + digits(m_a) - p; for Decimal (which only removes digits after
+// the dot) the unit is never coarser than the units place: u = min(u, 0)
+func c08Within(dec bool, a, b c08Dec, p int) bool {
 	if a.m.Sign() == 0 {
 		return b.m.Sign() == 0
 	}
@@ -151,6 +152,9 @@ func c08Within(a, b c08Dec, p int) bool {
 		return false
 	}
 	u := new(big.Int).Add(a.e, big.NewInt(int64(len(a.m.String())-p)))
+	if dec && u.Sign() > 0 {
+		u.SetInt64(0)
+	}
 	lo := new(big.Int).Set(a.e)
 	hi := new(big.Int).Set(a.e)
 	for _, x := range []*big.Int{b.e, u} {
@@ -194,7 +198,7 @@ func c08Oracle(decimalMode bool, in []byte, prec int, out []byte) int {
 		if a.neg != b.neg || a.m.Cmp(b.m) != 0 || a.e.Cmp(b.e) != 0 {
 			mask |= 4
 		}
-	} else if !c08Within(a, b, prec) {
+	} else if !c08Within(decimalMode, a, b, prec) {
 		mask |= 4
 	}
 	if len(out) > len(in) {
@@ -240,18 +244,6 @@ func c08MaskText(m int) string {
 		p = append(p, "output longer than input")
 	}
 	return strings.Join(p, " + ")
-}
-
-// ---------- known findings ----------
-
-// c08MaybeExpNear is a cheap necessary condition of the trigger `trigExpNear` (Spec/Num.lean) of the known
-// findings K-C08-1/2; the cases that pass it are classified by the Lean predicate itself (op trig.c08.expnear).
-func c08MaybeExpNear(in []byte, prec int) bool {
-	if prec <= 0 {
-		return false
-	}
-	i := bytes.IndexAny(in, "eE")
-	return i >= 0 && len(in)-i-1 >= 18
 }
 
 // ---------- case collection ----------
@@ -347,7 +339,6 @@ func (b *c08Batch) process(cases []c08Case) {
 	lines := make([]string, 0, 2*len(cases))
 	idxModel := make([]int, len(cases))
 	idxHolds := make([]int, len(cases))
-	idxTrig := make([]int, len(cases))
 	for i := range cases {
 		cs := &cases[i]
 		op := "model.number "
@@ -358,11 +349,6 @@ func (b *c08Batch) process(cases []c08Case) {
 		}
 		idxModel[i] = len(lines)
 		lines = append(lines, op+h.Hex(cs.in)+" "+h.Int(int64(cs.prec)))
-		idxTrig[i] = -1
-		if !cs.dec && cs.gram && c08MaybeExpNear(cs.in, cs.prec) {
-			idxTrig[i] = len(lines)
-			lines = append(lines, "trig.c08.expnear "+h.Hex(cs.in)+" "+h.Int(int64(cs.prec)))
-		}
 		idxHolds[i] = -1
 		if cs.gram && cs.problem == "" {
 			idxHolds[i] = len(lines)
@@ -420,14 +406,6 @@ func (b *c08Batch) process(cases []c08Case) {
 			cfg := fmt.Sprintf("func=%s prec=%d", c08Name(cs.dec), cs.prec)
 			return h.Finding{Stage: b.st.Name, Kind: kind, What: what, Input: h.Q(cs.in), Hex: h.Hex(cs.in), Config: cfg, Impl: h.Q(cs.out), Seed: b.c.Seed}
 		}
-		underKnown := ""
-		if idxTrig[i] >= 0 && rep[idxTrig[i]] == "31" {
-			for _, k := range b.known {
-				if k.Status == "open" && k.Trigger == "trigExpNear" && underKnown == "" {
-					underKnown = k.ID
-				}
-			}
-		}
 		if cs.problem != "" {
 			if cs.gram {
 				kind := "fail"
@@ -467,10 +445,6 @@ func (b *c08Batch) process(cases []c08Case) {
 				}
 				if !confirmed {
 					b.c.R.Add(mk("diff", "specification says value changed but big.Rat says equal"))
-				} else if underKnown != "" {
-					b.c.R.ExcludedKnown++
-					b.st.Tag("known=" + underKnown)
-					continue
 				} else {
 					f := mk("fail", c08Name(cs.dec)+": "+c08MaskText(mask))
 					b.c.R.Add(f)
@@ -479,11 +453,6 @@ func (b *c08Batch) process(cases []c08Case) {
 			}
 		}
 		// (a) correspondence
-		if underKnown != "" {
-			b.c.R.ExcludedKnown++
-			b.st.Tag("known=" + underKnown)
-			continue
-		}
 		if !bytes.Equal(model, cs.out) {
 			// at most two findings per (function, input): the same lexeme usually disagrees at every precision
 			if b.ndiff == nil {
@@ -649,9 +618,20 @@ var c08Regress = []struct {
 }{
 	{true, "99.5", 2, "100"}, {true, "999.5", 3, "1000"}, {true, "99.95", 3, "100"}, {true, "-99.5", 2, "-100"},
 	{true, "9.5", 1, "10"}, {true, ".96", 1, "1"}, {true, "199.5", 3, "200"}, {true, "12345.678", 2, "12345.678"},
+	// integer part of exactly prec, prec+1, prec+2 digits, fraction >= .5 and < .5: Decimal only removes digits after the dot
+	{true, "2.9", 1, "3"}, {true, "2.4", 1, "2"}, {true, "12.9", 1, "12.9"}, {true, "10.4", 1, "10.4"}, {true, "123.9", 1, "123.9"}, {true, "123.4", 1, "123.4"},
+	{true, "14.9", 2, "15"}, {true, "14.4", 2, "14"}, {true, "104.9", 2, "104.9"}, {true, "104.4", 2, "104.4"}, {true, "1044.9", 2, "1044.9"},
+	{true, "123.75", 3, "124"}, {true, "1234.75", 3, "1234.75"}, {true, "12345.25", 3, "12345.25"}, {true, "45.51", 1, "45.51"}, {true, "+99.9", 1, "99.9"},
 	{false, "99.5", 2, "100"}, {false, "1000", 0, "1e3"}, {false, "0.001", 0, ".001"}, {false, "-0", 0, "0"},
 	{false, "1e-9223372036854775808", 0, "1e-9223372036854775808"}, {false, "100e-2", 0, "1"}, {false, ".0000001", 0, "1e-7"},
 	{false, "123456e9223372036854775806", 2, "123456e9223372036854775806"},
+	// fixed in bc4b03f (formerly K-C08-1/2): with a precision an exponent within len+1 of the int range leaves the lexeme alone
+	{false, "123456.7e9223372036854775807", 2, "123456.7e9223372036854775807"},
+	{false, "0.95e9223372036854775807", 1, "0.95e9223372036854775807"},
+	{false, "9999999.9999999099e-9223372036854775803", 16, "9999999.9999999099e-9223372036854775803"},
+	{false, "99.5e9223372036854775807", 2, "99.5e9223372036854775807"},
+	{false, "123456.7e9223372036854775807", 0, "123456.7e9223372036854775807"},
+	{false, "99.5e9223372036854775780", 2, "1e9223372036854775782"},
 }
 
 func init() {
